@@ -345,8 +345,49 @@ def r4_after_ring(r, facts):
     r.floor(2)
 
 
+def r5_enter_submits_all(r, facts):
+    """io_uring_enter's to_submit: everything queued (the wake message sits behind whatever else is queued, the kernel takes
+    entries in order), or 0 where the kernel thread takes the entries itself"""
+    f = facts.fn(ENTER)
+    eb = ExprBuilder(f, multi='phi')
+    calls = [(loc, t) for loc, t in f.calls() if (t.get('callee') or '').endswith('io_uring_enter2') or (t.get('callee') or '').endswith('io_uring_enter')]
+    if not r.require(len(calls) == 1 and len(calls[0][1]['args']) >= 2, 'enter/syscall', 'io_uring_enter2 call not found in Shared::enter', f.where()):
+        return
+    loc, t = calls[0]
+    e = eb.operand(t['args'][1])
+    alts = list(e[1]) if e[0] == 'phi' else [e]
+    r.inst('to_submit = %s' % (e,), f.where(loc))
+    seen_all = False
+    for a in alts:
+        x = a
+        while x[0] == 'cast':
+            x = x[4]
+        if x[0] == 'const' and x[1] == 0:
+            continue
+        if x[0] == 'call' and x[1] == 'io_uring::Shared::unsubmitted_submissions' and x[2] and x[2][0][0] == 'arg':
+            seen_all = True
+            continue
+        r.bad('enter/to_submit', 'io_uring_enter is asked to submit %s instead of all unsubmitted entries: entries queued behind the cut-off (such as the wake-up message of Submissions::wake, or a cancel request) stay unsubmitted' % (a,), f.where(loc))
+    r.require(seen_all, 'enter/to_submit', 'io_uring_enter never submits the unsubmitted entries', f.where(loc))
+    # 0 only on the kernel-thread edge
+    kt = [si for si in (dict(bb=b, term=blk['term']) for b, blk in enumerate(f.blocks) if blk['term']['k'] == 'switch' and not blk['cleanup'])
+          if fam.last_field(eb.operand(si['term']['discr'])) == 'kernel_thread']
+    if r.require(len(kt) == 1, 'enter/kernel-thread', 'test of self.kernel_thread not found in Shared::enter', f.where()):
+        tt = kt[0]['term']
+        vals = {int(v): tg for v, tg in tt['targets']}
+        t_false = vals.get(0)
+        t_true = vals.get(1, tt['otherwise'])
+        uns = [l for l, t2 in f.calls() if (t2.get('callee') or '') == 'io_uring::Shared::unsubmitted_submissions']
+        # without a kernel thread every path to the syscall asks how much is queued
+        if t_false is not None:
+            hit = f.forward_paths_hit([Loc(t_false, 0)], [loc], blockers=uns)
+            r.require(hit is None, 'enter/to_submit-skipped', 'without a kernel thread a path reaches io_uring_enter without counting the unsubmitted entries', f.where(loc))
+    r.floor(1)
+
+
 def check(ctx):
     ctx.run('C11.R1', 'PollingState: one RMW each, truth table of set_polling/wake over the 2-bit state', r1_truth_table)
     ctx.run('C11.R2', 'Completions::poll brackets the blocking enter with set_polling(true/false); pending wake => zero timeout', r2_bracketing)
     ctx.run('C11.R3', 'Submissions::wake: message iff polling.wake(); MSG_RING to own fd; flushed by enter; single-issuer path', r3_sq_wake)
     ctx.run('C11.R4', 'wake only needs Arc<Shared>-owned state (harmless after the Ring is dropped)', r4_after_ring)
+    ctx.run('C11.R5', 'Shared::enter submits everything queued (the wake message is not left behind other entries)', r5_enter_submits_all)
